@@ -16,6 +16,8 @@ def has(conds, text, truth):
 
 def run(ctx):
     ctx.rule("R14.x", "context-manager model: _batch_call_watchers, batch_call_watchers, discard_events, _syncing and edit_constant interpreted abstractly with the body of the `with` supplied at the `yield` (62 cases: entry state x body ends normally / raises x nesting x queues replaced in the body x Parameter copies made in the body): flag, queues, syncing set and constant flags are, after the block, what they were before; the flush runs iff outermost, after the restore, also when the body raised", floor=1)
+    ctx.rule("R14.n", "the per-instance Parameter table is one dict for the life of the instance: after construction `<instance>._param__private.params` is only mutated in place, never rebound -- edit_constant (and the descriptor wrapper) hold on to that dict across their work, so Parameter copies put into a replacement dict are never re-locked", floor=3)
+    ctx.rule("R14.o", "Parameterized.__getstate__, interpreted abstractly, saves every ordinary attribute and the complete per-instance value store -- entries that are still the class default object included (that entry pins a constant to the instance; a copy without it follows later class-level sets)", floor=1)
     ctx.rule("R14.a", "in Parameter.__set__ every value store is control-dependent on the constant/readonly test; no store lies on a path where "
                       "self.readonly holds, nor where the parameter is constant and the instance is initialized; on that arm the only "
                       "non-raising continuation is the identity case", floor=5)
@@ -237,6 +239,39 @@ def run(ctx):
                  "copies the inherited Parameter), the object that was unlocked -- the ancestor's Parameter -- stays constant=False for good",
                  key=ec_.qualname + "::restore-by-name-only",
                  input="class B(A) inherits constant x; with edit_constant(B()): B.x = 5  ->  A.param.x.constant is False afterwards")
+
+    from checks.shared import getstate_complete
+    getstate_complete(ctx, "R14.o")
+
+    # ---------------------------------------------------------------- R14.n
+    ALLOWED_REBINDERS = {
+        "param.parameterized._InstancePrivate.__init__": "construction of the private namespace",
+        "param.parameterized._ClassPrivate.__init__": "construction of the class-level namespace",
+        "param.parameterized.Parameters._cls_parameters": "class-level memo (rebinding is how it is invalidated, R13.f)",
+        "param.parameterized.ParameterizedMetaclass._clear_params_cache": "class-level memo (taken from cls.__dict__)",
+    }
+    n_reb = 0
+    for g in ctx.repo.all_funcs("param"):
+        al_ = ctx.facts.local_aliases(g)
+        for st in ast.walk(g.node):
+            if not isinstance(st, (ast.Assign, ast.AugAssign)):
+                continue
+            for t in (st.targets if isinstance(st, ast.Assign) else [st.target]):
+                if isinstance(t, ast.Attribute) and t.attr == "params":
+                    base = t.value
+                    if isinstance(base, ast.Name) and base.id in al_:
+                        base = al_[base.id]
+                    root = norm(base)
+                    if not (root.endswith("_param__private") or root in ("private", "self", "param_private") or "_param__private" in root):
+                        continue
+                    n_reb += 1
+                    if g.qualname in ALLOWED_REBINDERS:
+                        ctx.ok("R14.n", g, st, "allowed: %s" % ALLOWED_REBINDERS[g.qualname])
+                    else:
+                        ctx.fail("R14.n", g, st, "`%s` replaces the per-instance Parameter table by another dict: code that took the table before (edit_constant does, for the length of its block) "
+                                                 "no longer sees the Parameter copies created from then on, so copies born unlocked inside an edit_constant block stay unlocked for good" % norm(st)[:60],
+                                 key="%s::params-table-rebound" % g.qualname, input="with edit_constant(p): p.param.objects()   -> afterwards p.c = 1 is accepted")
+    ctx.require(n_reb >= 3, "fewer than 3 writers of a `.params` table found (%d)" % n_reb)
 
     # ---------------------------------------------------------------- R14.l
     from engine.absint import Interp as _I, Obj as _O, PyFunc as _PF, Unsupported as _U
